@@ -98,6 +98,17 @@ class ScriptedPeer(threading.Thread):
                                     break
                                 got += b
                                 need -= len(b)
+                        elif step[0] == "recv_slow":
+                            conn.settimeout(WATCHDOG_S)
+                            need, chunk, delay = step[1], step[2], step[3]
+                            while need > 0:
+                                b = conn.recv(min(chunk, need))
+                                if not b:
+                                    break
+                                got += b
+                                need -= len(b)
+                                if delay:
+                                    time.sleep(delay)
                         elif step[0] == "close":
                             break
                     self.event("script-done-%d" % (len(self.received) - 1)).set()
@@ -251,11 +262,14 @@ def peer_cases(draw):
     return {"api": draw(st.sampled_from(["sync", "async"])), "frags": frags, "reqs": reqs,
             "connect_timeout": draw(st.sampled_from([None, 1.0, 5.0])), "read_timeout": draw(st.sampled_from([2.0, 5.0])),
             "idle_timeout": draw(st.sampled_from([0.05, 0.1, 0.2, 0.3])), "tail": draw(st.binary(min_size=1, max_size=2000)),
-            "rcvbuf": draw(st.sampled_from([None, None, 4096, 65536])), "reconnect": draw(st.booleans())}
+            "rcvbuf": draw(st.sampled_from([None, None, 4096, 65536])), "reconnect": draw(st.booleans()),
+            "big_write": draw(st.sampled_from([0, 0, 100000, 1048576])), "write_timeout": draw(st.sampled_from([None, 2.0, 5.0])),
+            "peer_rcvbuf": draw(st.sampled_from([None, 4096])), "sndbuf": draw(st.sampled_from([None, 4096]))}
 
 
 def _drive_sync(case, port, peer, rec):
     tr = SmallBufTcp("127.0.0.1", port)
+    tr.SNDBUF = case.get("sndbuf")
     tr.connect(case["connect_timeout"])
     if case.get("rcvbuf"):
         tr._connection.setsockopt(socket.SOL_SOCKET, socket.SO_RCVBUF, case["rcvbuf"])
@@ -296,6 +310,20 @@ def _drive_sync(case, port, peer, rec):
     rec["tail"] = bytes(tail)
     sent = tr.bulk_write(b"client-hello", case["read_timeout"])
     rec["write_ret"] = sent
+    if case.get("big_write"):
+        data = big_payload(case["big_write"])
+        view = memoryview(data)
+        calls = 0
+        while len(view):
+            if time.time() > t_end:
+                raise Inconclusive("watchdog while writing")
+            n = tr.bulk_write(bytes(view), case.get("write_timeout"))
+            calls += 1
+            if not isinstance(n, int) or n <= 0 or n > len(view):
+                rec["bad_write_count"] = (n, len(view))
+                break
+            view = view[n:]
+        rec["big_write_calls"] = calls
     tr.close()
     tr.close()
     rec["closed_twice"] = True
@@ -308,6 +336,7 @@ def _drive_sync(case, port, peer, rec):
 
 async def _drive_async(case, port, peer, rec):
     tr = SmallBufTcpAsync("127.0.0.1", port)
+    tr.SNDBUF = case.get("sndbuf")
     await tr.connect(case["connect_timeout"])
     total = sum(len(f) for f, _ in case["frags"])
     got = bytearray()
@@ -344,6 +373,20 @@ async def _drive_async(case, port, peer, rec):
         tail += b
     rec["tail"] = bytes(tail)
     rec["write_ret"] = await tr.bulk_write(b"client-hello", case["read_timeout"])
+    if case.get("big_write"):
+        data = big_payload(case["big_write"])
+        view = memoryview(data)
+        calls = 0
+        while len(view):
+            if time.time() > t_end:
+                raise Inconclusive("watchdog while writing")
+            n = await tr.bulk_write(bytes(view), case.get("write_timeout"))
+            calls += 1
+            if not isinstance(n, int) or n <= 0 or n > len(view):
+                rec["bad_write_count"] = (n, len(view))
+                break
+            view = view[n:]
+        rec["big_write_calls"] = calls
     await tr.close()
     await tr.close()
     rec["closed_twice"] = True
@@ -354,10 +397,16 @@ async def _drive_async(case, port, peer, rec):
         await tr.close()
 
 
+def big_payload(n):
+    return (bytes(range(256)) * (n // 256 + 1))[:n]
+
+
 def run_transport(case, api):
     script = [("send", f, p) for f, p in case["frags"]] + [("wait", "tail"), ("send", case["tail"], 0), ("recv", len(b"client-hello"))]
+    if case.get("big_write"):
+        script.append(("recv_slow", case["big_write"], 4096, 0.004))
     scripts = [script] + ([[("send", b"again", 0)]] if case["reconnect"] else [])
-    peer = ScriptedPeer(scripts)
+    peer = ScriptedPeer(scripts, rcvbuf=case.get("peer_rcvbuf"))
     peer.start()
     rec = {"reads": [], "api": api}
     try:
@@ -373,9 +422,10 @@ def run_transport(case, api):
     finally:
         if rec.get("exc", 1) is None:
             # let the peer finish its script (it may still be about to receive what we wrote) before stopping it
+            # (the client has returned from close(): whatever it reported as written is in the kernel by now; 5 s is ample for the peer to drain it)
             for k in range(len(scripts)):
-                if not peer.event("script-done-%d" % k).wait(WATCHDOG_S):
-                    rec["inconclusive"] = "peer did not finish its script"
+                if not peer.event("script-done-%d" % k).wait(5.0):
+                    rec["peer_unfinished"] = True
         peer.stop()
         peer.join(timeout=3)
     rec["peer_received"] = bytes(peer.received[0]) if peer.received else b""
@@ -403,6 +453,13 @@ def judge_transport(case, rec):
         return Violation("data-lost-after-timeout", "peer sent %r.. after the timeout, transport delivered %r.." % (case["tail"][:20], rec["tail"][:20]))
     if not rec["peer_received"].startswith(b"client-hello"):
         return Violation("write-not-delivered", "peer received %r" % rec["peer_received"][:40])
+    if case.get("big_write"):
+        if rec.get("bad_write_count"):
+            return Violation("write-count-out-of-range", "bulk_write returned %r for %d offered bytes" % rec["bad_write_count"])
+        want_w = b"client-hello" + big_payload(case["big_write"])
+        if rec["peer_received"] != want_w:
+            return Violation("written-bytes-not-delivered", "every bulk_write call returned normally (counts summing to %d bytes) and close() returned, but the peer received %d bytes; first difference at %s"
+                             % (len(want_w), len(rec["peer_received"]), _first_diff(want_w, rec["peer_received"])))
     if case["reconnect"] and rec.get("reconnect") != b"again":
         return Violation("reconnect-failed", "after close()+connect() read %r" % rec.get("reconnect"))
     return None
